@@ -593,7 +593,9 @@ func (p *parser) scanRegex() (*RegexNode, error) {
 			p.addUnitSet(cc)
 
 		case '(':
-			if p.useRE2() && p.charsRight() >= 3 && p.rightChar(0) == '?' && p.rightChar(1) == 'P' && p.rightChar(2) == '=' {
+			// (not when this paren has to open the condition of (?(...)yes|no): a back reference is no group,
+			// the conditional would be left without its condition child)
+			if p.useRE2() && !p.ignoreNextParen && p.charsRight() >= 3 && p.rightChar(0) == '?' && p.rightChar(1) == 'P' && p.rightChar(2) == '=' {
 				n, err := p.scanPythonNamedBackref()
 				if err != nil {
 					return nil, err
